@@ -276,6 +276,8 @@ pub struct QueryCase {
     pub alg: Alg,
     pub od: Od,
     pub reverse: bool,
+    /// load the graph through the real file loader instead of building it in memory
+    pub via_files: bool,
 }
 
 impl QueryCase {
@@ -288,6 +290,7 @@ impl QueryCase {
             "algorithm_name": self.alg.name(),
             "od": od_to_json(&self.od),
             "direction": if self.reverse { "reverse" } else { "forward" },
+            "graph_via_files": self.via_files,
         })
     }
     pub fn from_json(v: &Value) -> Option<QueryCase> {
@@ -298,6 +301,7 @@ impl QueryCase {
             alg: alg_from_json(&v["algorithm"])?,
             od: od_from_json(&v["od"])?,
             reverse: v["direction"].as_str() == Some("reverse"),
+            via_files: v["graph_via_files"].as_bool().unwrap_or(false),
         })
     }
 }
@@ -307,7 +311,7 @@ impl QueryCase {
     pub fn build(&self) -> Result<routee_compass_core::algorithm::search::search_instance::SearchInstance, String> {
         use routee_compass_core::algorithm::search::util::edge_cut_frontier_model::EdgeCutFrontierModel;
         use routee_compass_core::model::network::EdgeId;
-        let graph = std::sync::Arc::new(self.world.net.to_graph());
+        let graph = crate::gen::net::graph_for(&self.world.net, self.via_files)?;
         let mut si = self.world.si(graph, &self.query)?;
         if !self.cut.is_empty() {
             let set: std::collections::HashSet<EdgeId> = self.cut.iter().map(|e| EdgeId(*e)).collect();
